@@ -1,6 +1,11 @@
 import JaqalProofs.Lemmas.RoundTripTokens
+import JaqalProofs.Lemmas.RoundTripProgram
+import JaqalProofs.Lemmas.RoundTripLex
 import JaqalProofs.Props.C02
+import JaqalProofs.Props.C07
+import JaqalProofs.Props.C14
 import JaqalProofs.Props.C20
+import Mathlib.Data.List.Nodup
 /-!
 # C01 — generated text parses back to an equal circuit, and generating again reproduces the text
 
@@ -18,14 +23,21 @@ The round trip is cut into three layers, so that a failure localises:
 * (C) `Rebuild cfg c` — the builder maps `unbuild c` to a circuit `==` to `c` that generates the same text.
 
 `C01_compose` (PROVED) is the composition: (A) + (B) + (C) for one circuit give the round trip for that circuit.
-What is NOT proved in general is that every circuit in the range of `parseProgram` is `printable` and satisfies (B)
-and (C): these are the definitions `C01_printable_full`, `C01_lex_gen_full`, `C01_rebuild_full`, with the missing
-lemmas named below; `C01_roundtrip_partial` derives the property from them.  All three statements (and
-`printable`) are computable; the differential harness evaluates them in the model on every generated program
-(driver op `round_trip_layers`, `harness/agents/c01_diff.py`) next to the round trip of the real code.
+
+For circuits in the range of `parseProgram` (any text, `autoload_pulses=False`):
+* `C01_printable` — PROVED: every such circuit is printable (so (A) applies), has no same-kind nesting
+  (`C01_no_same_kind_nesting`) and is well-formed (`C01_wf`, hence `c == c`);
+* `C01_rebuild_canonical` — (C) PROVED, with `c' = c` exactly, for every program whose statements come in the
+  generator's order (usepulses, lets, register, aliases, macros, statements — every generated text is such a program);
+  for other orders (C) is reduced (`C01_rebuild_of_reorder`, PROVED) to `C01_reorder_full`: hoisting lets / the register /
+  aliases / macros into that order does not change what the builder makes — NOT proved;
+* (B) `C01_lex_gen_full` — NOT proved (the missing lemmas are named there).
+`C01_roundtrip_partial` derives the property from the two remaining statements.  All layer statements are computable;
+the differential harness evaluates them in the model on every generated program (driver op `round_trip_layers`,
+`harness/agents/c01_diff.py`) next to the round trip of the real code.
 -/
 namespace Jaqal.C01
-open Jaqal Jaqal.Lexer Jaqal.Parser Jaqal.Grammar Jaqal.Builder Jaqal.Generator Jaqal.PyEq Jaqal.Pipeline
+open Jaqal Jaqal.Lexer Jaqal.Parser Jaqal.Grammar Jaqal.Builder Jaqal.Generator Jaqal.PyEq Jaqal.Pipeline Jaqal.RoundTrip
 
 /-! ## (A) token layer -/
 
@@ -82,39 +94,190 @@ def C01_roundtrip_full : Prop :=
   ∀ (cfg : Config) (txt : String) (c : Circuit), cfg.autoload = false → parseProgram cfg txt = .ok c →
     ∃ t c', gen c = .ok t ∧ parseProgram cfg t = .ok c' ∧ circuitEq c c' = true ∧ gen c' = .ok t
 
-/-- MISSING (builder range lemma `parseProgram_printable`): every value the builder puts in a slot from a parser
-S-expression has a spelling — let values are numbers, sizes / indices / bounds / counts are ints or lets or
-parameters, alias sources are named, loop and macro bodies are blocks, a subcircuit never stands in a `< >`, a
-slice step is never the int 0.  Provable from `derives_parserSx` (C16) by following `buildAny` on `ParserSx`
-inputs; not done here. -/
-def C01_printable_full : Prop :=
-  ∀ (cfg : Config) (txt : String) (c : Circuit), cfg.autoload = false → parseProgram cfg txt = .ok c →
-    printable c = true
+/-! ### what every parser-produced circuit is like -/
+
+/-- a text accepted by `parseProgram`: its tree, the shape and names of the tree's children, the memo-free build -/
+theorem parseProgram_inv {cfg : Config} {txt : String} {c : Circuit} (h : parseProgram cfg txt = .ok c) :
+    ∃ sx cs, parseText txt = .ok sx ∧ BSx.ofSx sx = .list (.str "circuit" :: cs) ∧
+      (∀ e ∈ cs, GChild e ∧ noBr e = true) ∧ buildNoMemo cfg (.list (.str "circuit" :: cs)) = .ok c ∧
+      parseBuild cfg sx = .ok c ∧ tooManyRegisters c = .ok c := by
+  unfold parseProgram parseSx at h
+  cases hp : parseText txt with
+  | error e => rw [hp] at h; cases h
+  | ok sx =>
+    rw [hp] at h
+    have hpb : parseBuild cfg sx = .ok c := h
+    have h2 := hpb
+    unfold parseBuild at h2
+    obtain ⟨c0, hb, ht⟩ := bind_ok h2
+    have hc0 : c0 = c := by
+      unfold tooManyRegisters at ht
+      split at ht
+      · simp [throw_eq] at ht
+      · simpa [pure, Except.pure] using ht
+    subst hc0
+    have hnb := parseText_noBr hp
+    have hder : ∃ ts, Derives ts sx := by
+      unfold parseText at hp
+      split at hp
+      · rename_i ts _
+        cases hq : parse ts with
+        | ok x => rw [hq] at hp; simp only [] at hp; cases hp; exact ⟨_, parse_sound hq⟩
+        | error e => rw [hq] at hp; cases hp
+      · rename_i ts le _
+        cases hq : parse ts with
+        | ok x => rw [hq] at hp; cases hp
+        | error e => rw [hq] at hp; simp only [] at hp; split at hp <;> cases hp
+    obtain ⟨ts, hd⟩ := hder
+    obtain ⟨hs, bs, he, hh, hbod⟩ := derives_gprogram hd
+    refine ⟨sx, hs ++ bs, rfl, he, ?_, ?_, hpb, ht⟩
+    · intro e hmem
+      rw [he] at hnb
+      simp only [noBr, noBrList, Bool.and_eq_true] at hnb
+      refine ⟨?_, noBr_mem hnb.2 hmem⟩
+      rcases List.mem_append.1 hmem with hm | hm
+      · exact Or.inl (hh e hm)
+      · exact Or.inr (hbod e hm)
+    · rw [← he, ← C07_memo_transparent]; exact hb
+
+/-- **Every circuit the parser and builder produce is printable** (layer A applies to it), has no same-kind nesting and
+is well-formed — whatever the order of the statements of the text. -/
+theorem C01_built_facts (cfg : Config) (txt : String) (c : Circuit) (ha : cfg.autoload = false)
+    (h : parseProgram cfg txt = .ok c) : BuiltFacts c := by
+  obtain ⟨sx, cs, _, _, hcs, hb, _, _⟩ := parseProgram_inv h
+  exact buildNoMemo_facts ha hcs hb
+
+theorem C01_printable (cfg : Config) (txt : String) (c : Circuit) (ha : cfg.autoload = false)
+    (h : parseProgram cfg txt = .ok c) : printable c = true :=
+  (C01_built_facts cfg txt c ha h).printable
+
+/-- A parser-produced circuit has no block directly inside a block of its own kind (subcircuits and the top level
+apart): the generator has nothing to splice, and `==` on the statement lists of `c` and of the re-parsed circuit
+compares like with like. -/
+theorem C01_no_same_kind_nesting (cfg : Config) (txt : String) (c : Circuit) (ha : cfg.autoload = false)
+    (h : parseProgram cfg txt = .ok c) : NoSameKindNesting c :=
+  (C01_built_facts cfg txt c ha h).noNesting
+
+/-- a parser-produced circuit is well-formed in the sense of `C20_refl`: its dictionaries have distinct keys and every
+qubit has a named source; hence `c == c` -/
+theorem C01_wf (cfg : Config) (txt : String) (c : Circuit) (ha : cfg.autoload = false)
+    (h : parseProgram cfg txt = .ok c) : WF c := by
+  have hf := C01_built_facts cfg txt c ha h
+  obtain ⟨sx, cs, _, he, _, _, hpb, _⟩ := parseProgram_inv h
+  unfold parseBuild at hpb
+  obtain ⟨c0, hb, ht⟩ := bind_ok hpb
+  have hc0 : c0 = c := by
+    unfold tooManyRegisters at ht
+    split at ht
+    · simp [throw_eq] at ht
+    · simpa [pure, Except.pure] using ht
+  subst hc0
+  have hn := C14_names_build cfg _ _ hb
+  have hnames := hn.names
+  have key : ∀ (l : List Val), (∀ v ∈ l, ∃ n, v.name? = some n) → (l.map Builder.nameOf).Nodup → (l.map Val.name?).Nodup := by
+    intro l hl hnd
+    have : l.map Val.name? = (l.map Builder.nameOf).map some := by
+      rw [List.map_map]
+      apply List.map_congr_left
+      intro v hv
+      obtain ⟨n, hn'⟩ := hl v hv
+      simp [Builder.nameOf, hn']
+    rw [this]
+    exact hnd.map (Option.some_injective _)
+  rw [List.map_append] at hnames
+  have hmn := hn.macroNames
+  refine { constKeys := key _ hf.namedConsts (List.Nodup.of_append_left hnames),
+           regKeys := key _ hf.namedRegs (List.Nodup.of_append_right hnames),
+           macroKeys := ?_, nativeKeys := ?_, consts := hf.wfConsts, regs := hf.wfRegs, macros := hf.wfMacros,
+           body := hf.wfBody }
+  · have := (List.Nodup.of_append_left hmn).map (Option.some_injective _)
+    simpa [List.map_map, Function.comp_def] using this
+  · have := (List.Nodup.of_append_right hmn).map (Option.some_injective _)
+    simpa [List.map_map, Function.comp_def] using this
+
+/-! ### (C) for programs in the generator's order, and its reduction to a reordering lemma in general -/
+
+/-- the statements of the tree come in the generator's order -/
+def CanonicalSx (sx : Sx) : Prop :=
+  ∃ cs, BSx.ofSx sx = .list (.str "circuit" :: cs) ∧ Canonical cs
+
+/-- **Layer C for every text whose statements come in the generator's order**: the tree the generator writes for
+the circuit is built to exactly that circuit. -/
+theorem C01_rebuild_canonical (cfg : Config) (txt : String) (c : Circuit) (ha : cfg.autoload = false)
+    (h : parseProgram cfg txt = .ok c) (hcan : ∀ sx, parseText txt = .ok sx → CanonicalSx sx) :
+    parseBuild cfg (unbuild c) = .ok c ∧ Rebuild cfg c := by
+  obtain ⟨sx, cs, hp, he, hcs, hb, _, ht⟩ := parseProgram_inv h
+  obtain ⟨cs', he', hc'⟩ := hcan sx hp
+  have : cs' = cs := by rw [he] at he'; cases he'; rfl
+  subst this
+  have hre := (buildNoMemo_rebuild ha hcs hc' hb).1
+  have hpb : parseBuild cfg (unbuild c) = .ok c := by
+    unfold parseBuild
+    rw [C07_memo_transparent, hre]
+    exact ht
+  exact ⟨hpb, c, hpb, C20.C20_refl c (C01_wf cfg txt c ha h), rfl⟩
+
+/-- MISSING (`build_reorder`): bringing the statements of an accepted program into the generator's order (a stable
+sort by section: usepulses, lets, register, aliases, macros, statements) does not change the circuit the builder makes.
+Why it holds: a let depends on nothing; the register only on lets; an alias on lets, the register and earlier aliases,
+whose relative order is kept; names are unique (`add_to_context` refuses duplicates), so looking a name up in a larger
+context gives the same value; a macro body and a statement see the same gate definitions in either order because the
+table only grows by fresh names, anonymous definitions are determined by name and arity, and a macro cannot be defined
+after its name was used as a gate.  What makes it long: `nestingCheck` looks macros up with a fuel bound equal to the
+size of the table, so the proof needs the acyclicity of the macro table. -/
+def C01_reorder_full : Prop :=
+  ∀ (cfg : Config) (cs : List BSx) (c : Circuit), cfg.autoload = false → (∀ e ∈ cs, GChild e ∧ noBr e = true) →
+    buildNoMemo cfg (.list (.str "circuit" :: cs)) = .ok c →
+    buildNoMemo cfg (.list (.str "circuit" :: cs.mergeSort (fun a b => decide (rank a ≤ rank b)))) = .ok c
+
+/-- layer (C) for all parser-produced circuits -/
+def C01_rebuild_full : Prop :=
+  ∀ (cfg : Config) (txt : String) (c : Circuit), cfg.autoload = false → parseProgram cfg txt = .ok c → Rebuild cfg c
+
+/-- (C) in general follows from the reordering lemma. -/
+theorem C01_rebuild_of_reorder (hR : C01_reorder_full) : C01_rebuild_full := by
+  intro cfg txt c ha h
+  obtain ⟨sx, cs, hp, he, hcs, hb, _, ht⟩ := parseProgram_inv h
+  have hb' := hR cfg cs c ha hcs hb
+  have hperm := List.mergeSort_perm cs (fun a b => decide (rank a ≤ rank b))
+  have hcs' : ∀ e ∈ cs.mergeSort (fun a b => decide (rank a ≤ rank b)), GChild e ∧ noBr e = true :=
+    fun e hm => hcs e (hperm.mem_iff.1 hm)
+  have hsorted : Canonical (cs.mergeSort (fun a b => decide (rank a ≤ rank b))) := by
+    have := List.pairwise_mergeSort (le := fun (a b : BSx) => decide (rank a ≤ rank b))
+      (by intro a b c h1 h2; simp only [decide_eq_true_eq] at *; omega)
+      (by intro a b; simp only [Bool.or_eq_true, decide_eq_true_eq]; omega) cs
+    unfold Canonical
+    rw [List.pairwise_map]
+    exact this.imp (fun h => by simpa using h)
+  have hre := (buildNoMemo_rebuild ha hcs' hsorted hb').1
+  have hpb : parseBuild cfg (unbuild c) = .ok c := by
+    unfold parseBuild
+    rw [C07_memo_transparent, hre]
+    exact ht
+  exact ⟨c, hpb, C20.C20_refl c (C01_wf cfg txt c ha h), rfl⟩
 
 /-- MISSING (text layer `lex_gen`): for a parser-produced circuit the generator does not raise and its text lexes
 to `toks c`.  Ingredients that exist: the literal lemmas of `Props/C01Literals.lean` (`C01_float_roundtrip`,
 `C01_int_roundtrip`, `C01_no_token_merge*`: a number followed by a blank, newline or `]` is one token with the same
-value).  Ingredients that are missing: (1) `Lexer.mNumber`/`mInt` (used by `lex`) agree with
-`NumText.parseNumber`/`parseInt` (used by those lemmas); (2) every name the builder stores is a legal, non-keyword
-identifier (from the IDENTIFIER tokens it came from: `lex_covers` gives the token texts) and an identifier followed
-by ` `, `\n`, `[`, `]` lexes as one IDENTIFIER token; (3) `lexAux` over a concatenation of such pieces. -/
+value); `lexAux_toks_ok` (`Lemmas/RoundTripLex.lean`: the lexer's identifiers are made of identifier characters).
+Ingredients that are missing: (1) `Lexer.mNumber`/`mInt` (used by `lex`) agree with `NumText.parseNumber`/`parseInt`
+(used by those lemmas); (2) every name the builder stores is one of the program's identifiers (or `a[i]` made of two of
+them) and an identifier followed by ` `, `\n`, `[`, `]` lexes as one IDENTIFIER token; every float the builder stores is
+canonical; (3) `lexAux` over a concatenation of such pieces. -/
 def C01_lex_gen_full : Prop :=
   ∀ (cfg : Config) (txt : String) (c : Circuit), cfg.autoload = false → parseProgram cfg txt = .ok c → LexGen c
 
-/-- MISSING (builder layer `rebuild`): for `c` in the range of `parseProgram`, `parseBuild cfg (unbuild c)` succeeds
-with a circuit `==` to `c` generating the same text.  The relation between `c` and the rebuilt `c'` is equality up
-to (i) written-out slice bounds (already defaults in `c`: start 0 / stop size / step 1 are stored by the first
-build), (ii) `as_integer` (idempotent: `C01_asInteger_idem`), (iii) the subcircuit count (`C01_subcount_fixpoint`),
-and NO splicing: a parser-produced circuit has no directly nested same-kind block (`C01_no_same_kind_nesting_sx`
-is the S-expression half).  Needs the builder's context after the first build to be reproduced by the second
-(names unique per namespace: `C14_names_distinct`; memo transparency: `C07_memo_transparent`). -/
-def C01_rebuild_full : Prop :=
-  ∀ (cfg : Config) (txt : String) (c : Circuit), cfg.autoload = false → parseProgram cfg txt = .ok c → Rebuild cfg c
+/-- The property follows from the two remaining range statements. -/
+theorem C01_roundtrip_partial (hB : C01_lex_gen_full) (hR : C01_reorder_full) : C01_roundtrip_full :=
+  fun cfg txt c ha h => C01_compose cfg c (C01_printable cfg txt c ha h) (hB cfg txt c ha h)
+    (C01_rebuild_of_reorder hR cfg txt c ha h)
 
-/-- The property follows from the three range lemmas. -/
-theorem C01_roundtrip_partial (hP : C01_printable_full) (hB : C01_lex_gen_full) (hC : C01_rebuild_full) :
-    C01_roundtrip_full :=
-  fun cfg txt c ha h => C01_compose cfg c (hP cfg txt c ha h) (hB cfg txt c ha h) (hC cfg txt c ha h)
+/-- For a text in the generator's order only (B) is missing. -/
+theorem C01_roundtrip_canonical_partial (hB : C01_lex_gen_full) (cfg : Config) (txt : String) (c : Circuit)
+    (ha : cfg.autoload = false) (h : parseProgram cfg txt = .ok c)
+    (hcan : ∀ sx, parseText txt = .ok sx → CanonicalSx sx) :
+    ∃ t c', gen c = .ok t ∧ parseProgram cfg t = .ok c' ∧ circuitEq c c' = true ∧ gen c' = .ok t :=
+  C01_compose cfg c (C01_printable cfg txt c ha h) (hB cfg txt c ha h) (C01_rebuild_canonical cfg txt c ha h hcan).2
 
 /-! ### a literal zero step is rejected at build -/
 
@@ -287,7 +450,14 @@ program (op `round_trip_layers`). -/
 #print axioms C01_tokens_derive
 #print axioms C01_parse_toks
 #print axioms C01_compose
+#print axioms C01_built_facts
+#print axioms C01_printable
+#print axioms C01_no_same_kind_nesting
+#print axioms C01_wf
+#print axioms C01_rebuild_canonical
+#print axioms C01_rebuild_of_reorder
 #print axioms C01_roundtrip_partial
+#print axioms C01_roundtrip_canonical_partial
 #print axioms C01_zero_step_rejected
 #print axioms C01_no_literal_zero_step
 #print axioms C01_meaning
